@@ -450,6 +450,99 @@ def exception_cases():
     return out
 
 
+def observe_return_object(case) -> str:
+    """what the body returns is handed to the caller as it is: a one-shot iterator (generator, map, zip, a file-like reader) still has
+    all of its items, a lazily evaluated object has not been touched — with and without a return hint"""
+    kind, hint = case.meta["kind"], case.meta["hint"]
+    touched = []
+
+    class Lazy:
+        """an object that records every way of looking at it"""
+
+        def __iter__(self):
+            touched.append("iter")
+            return iter(())
+
+        def __len__(self):
+            touched.append("len")
+            return 0
+
+        def __bool__(self):
+            touched.append("bool")
+            return True
+
+        def __getitem__(self, i):
+            touched.append("getitem")
+            raise IndexError(i)
+
+    rows = [np.zeros((2, 3), np.float32) + i for i in range(4)]
+    make = {"generator": lambda: (r for r in rows), "map": lambda: map(lambda r: r, rows), "zip": lambda: zip(rows, rows), "iter(list)": lambda: iter(list(rows)),
+            "reversed": lambda: reversed(rows), "dict-values-iterator": lambda: iter({i: r for i, r in enumerate(rows)}.values()), "lazy-object": Lazy}[kind]
+    MOD.MAKE = make
+    MOD.LOG = []
+    src = f"@dltype.dltyped()\ndef f_ret(x: Annotated[np.ndarray, A]){hint}:\n    LOG.append(1)\n    return MAKE()\n"
+    exec(compile(src, "<c16ret>", "exec"), MOD.__dict__)  # noqa: S102
+    try:
+        out = MOD.f_ret(MOD.GOOD)
+    except Exception as e:  # noqa: BLE001
+        return f"differs raised({type(e).__name__}: {str(e)[:60]})"
+    diffs = []
+    if kind == "lazy-object":
+        if touched:
+            diffs.append("returned-object-was-inspected(" + ",".join(touched) + ")")
+    else:
+        items = list(out)
+        if len(items) != 4:
+            diffs.append(f"iterator-handed-over-with-{len(items)}-of-4-items")
+    if len(MOD.LOG) != 1:
+        diffs.append(f"body-ran-{len(MOD.LOG)}-times")
+    return "differs " + ",".join(diffs) if diffs else "same"
+
+
+def return_object_cases():
+    return [Case(f"RETURNS\t{k}\treturn-hint={h or 'none'}", "return-object", {"kind": k, "hint": h})
+            for k in ("generator", "map", "zip", "iter(list)", "reversed", "dict-values-iterator", "lazy-object") for h in ("", " -> typing.Iterator", " -> object", " -> typing.Any")]
+
+
+ODD_FIELD_NAMES = ["cls", "self", "cls_inner", "args", "kwargs", "name", "value", "field_name", "annotation", "ctx", "original_new", "original_init", "index", "count"]
+
+
+def observe_field_names(case) -> str:
+    """field names that collide with names the decorators use internally (`cls`, `self`, `args`, `kwargs`, ...): construction by position
+    and by keyword behaves as on the undecorated twin"""
+    kind, fname = case.meta["kind"], case.meta["fname"]
+    if kind == "nt":
+        src = "".join(f"{dec}class N_{tag}(typing.NamedTuple):\n    x: Annotated[np.ndarray, A]\n    {fname}: int = 3\n" for tag, dec in (("dec", "@dltype.dltyped_namedtuple()\n"), ("raw", "")))
+    else:
+        src = "".join(f"{dec}@dataclasses.dataclass\nclass N_{tag}:\n    x: Annotated[np.ndarray, A]\n    {fname}: int = 3\n" for tag, dec in (("dec", "@dltype.dltyped_dataclass()\n"), ("raw", "")))
+    try:
+        exec(compile(src, "<c16names>", "exec"), MOD.__dict__)  # noqa: S102
+    except Exception as e:  # noqa: BLE001
+        return f"skip-invalid-definition {type(e).__name__}" if fname in ("self",) and kind == "dc" else f"differs definition-raises({type(e).__name__}: {str(e)[:60]})"
+    outs = []
+    for cls in (MOD.N_dec, MOD.N_raw):
+        row = []
+        for how, call in (("pos", lambda c=cls: c(MOD.GOOD, 7)), ("kw", lambda c=cls: c(**{"x": MOD.GOOD, fname: 7})), ("kw-rev", lambda c=cls: c(**{fname: 7, "x": MOD.GOOD})),
+                          ("default", lambda c=cls: c(MOD.GOOD)), ("bad", lambda c=cls: c(**{"x": MOD.BAD, fname: 7}))):
+            try:
+                inst = call()
+                row.append((how, "ok", getattr(inst, fname), inst.x is MOD.GOOD or inst.x is MOD.BAD))
+            except dltype.DLTypeError as e:
+                row.append((how, "dltype " + type(e).__name__))
+            except Exception as e:  # noqa: BLE001
+                row.append((how, f"{type(e).__name__}: {str(e)[:50]}"))
+        outs.append(row)
+    d, r = outs
+    diffs = [f"{a[0]}({a[1:]} vs {b[1:]})" for a, b in zip(d, r) if a != b and a[0] != "bad"]
+    if d[-1][1] != "dltype DLTypeNDimsError":
+        diffs.append(f"violating-field-not-rejected({d[-1][1]})")
+    return "differs " + ",".join(diffs)[:300] if diffs else "same"
+
+
+def field_name_cases():
+    return [Case(f"FIELDNAME\t{k}\t{n}", "field-names", {"kind": k, "fname": n}) for k in ("nt", "dc") for n in ODD_FIELD_NAMES]
+
+
 def expect(case, got):
     if got.startswith("same") or got.startswith("skip"):
         return None
@@ -483,6 +576,8 @@ def custom(run, tier):
     run.observe(cs, observe_func, expect, "decorated function differs from its undecorated twin")
     run.observe(class_cases(), observe_class, expect, "decorated class differs from its undecorated twin")
     run.observe(exception_cases(), observe_exception, expect, "an exception raised by the body / by the class's own __init__ / __post_init__ does not reach the caller unchanged")
+    run.observe(return_object_cases(), observe_return_object, expect, "the object the body returns is not handed to the caller as it is")
+    run.observe(field_name_cases(), observe_field_names, expect, "a decorated class with a field whose name the decorator uses internally differs from its twin")
     fields = [Case(f"TWINFIELDS\t{k}", "fields", {"shape": k}) for k in FIELD_SHAPES]
     run.observe(fields, observe_fields, expect, "a decorated dataclass with an annotated name that holds no value after __init__ differs from its twin")
     nested = [Case(f"TWINNESTED\t{k}", "nested", {"kind": k}) for k in ("nt", "dc")]
